@@ -54,6 +54,24 @@ def floors(tier):
 def _gen_multi(rng):
     nv = rng.choice([2, 3, 3, 4])
     case = multi.gen_case(rng, nvars=(nv, nv), depth=(2, 4), opts={"p_leaf": 0.15, "preds": rng.random() < 0.5})
+    if rng.random() < 0.25:
+        # disjunction over EQUAL variable sets whose left side is a conjunction, only part of the variables selected,
+        # few distinct values: the re-evaluation answers true and false rows of the same selected value from the cache
+        kinds = [rng.choice("PQ") for _ in range(2)]
+        world = D.random_world(rng, np_=(2, 4), nq=(2, 4), hi=2, rich=False)
+        o = dict(C.DEFAULT_OPTS)
+        o.update({"preds": False, "member": False, "calls": False, "index": False, "strings": False, "objcmp": rng.random() < 0.5})
+
+        def leaf2():
+            for _ in range(20):
+                l = C.gen_leaf(rng, kinds, o)
+                if C.mentioned(l) == {0, 1}:
+                    return l
+            return ["cmp", "==", ["v", 0, [["a", "a"]]], ["v", 1, [["a", "b"]]]]
+        cond = [rng.choice(["or", "|"]), ["and", leaf2(), leaf2()], leaf2()]
+        if rng.random() < 0.3:
+            cond = ["not", ["and", ["or", leaf2(), leaf2()], leaf2()]]
+        return {"world": world, "kinds": kinds, "cond": cond, "sel": [rng.randrange(2)]}
     if rng.random() < 0.4:
         # conjunction of disjunctions over different variables: produces partial bindings at every level
         kinds = case["kinds"]
